@@ -15,7 +15,7 @@ class P(vlib.Prop):
     assumptions = (
         "base64/hex codecs are Go library code: theorems quantify over any codec with dec (enc b) = Some b; the field-level theorems ask of the encoded checksum what they ask of a text field (no LF, no final CR, fits); per case the harness supplies what Go's codecs answered",
         "fields contain no LF and do not end in CR (bufio.ScanLines treats CRLF as the line terminator); list items are non-empty and contain no space; passwd/group fields contain no ':' (members no ','), the first has no leading and the last no trailing ASCII space",
-        "file lists (installed db): cleaned names pairwise different and none is '.'; every ancestor of every entry is present as a directory entry and top-level entries have a child (outside: C16-F5, C16-F7, C15-F4); non-directory names do not end in a '.', '..' component; uid/gid fit Go's int; names contain neither LF nor CR; for the read-then-re-write theorem directory names end in at most one slash (outside: C16-F8)",
+        "file lists (installed db): cleaned names pairwise different and none is '.'; every ancestor of every entry is present as a directory entry and top-level entries have a child (outside: C16-F5, C16-F7, C15-F4); non-directory names do not end in a '.', '..' component; uid/gid fit Go's int; names contain neither LF nor CR",
         "every field with its letter, colon and terminator is shorter than the reader's token limit (whatever ParsePackageIndex / ParseInstalled hand to Scanner.Buffer, today 1 MiB each, read by goextract; 64 KiB for passwd and group); numbers need no condition beyond their Go range (a uint64/int64 prints in at most 20 characters, proved)",
         "build times are whole seconds (the formats carry Unix seconds); uint64/int64/uint32 ranges as in the Go types",
         "M:/a: lines directly follow their F:/R: line (otherwise Go's pointer into pkg.Files may be stale after a reallocation; not modelled)",
@@ -27,7 +27,7 @@ class P(vlib.Prop):
                   "record's path, kind, mode, uid, gid but not its checksum (refuted, C16-F2) survive AddInstalledPackage then ParseInstalled; installed-db read-then-re-write "
                   "FULL inside the envelope (c16_installed_fixpoint): the second text is the first one minus the Z: lines and with the i: line wrapped in one more pair of "
                   "brackets, every other line identical (sortTarHeaders is invariant under permutation of its input and commutes with the reader's renaming of the entries); "
-                  "the envelope's extra clause (directory names end in at most one slash) shown necessary (C16-F8); 'the written lines fit the scanner' is DERIVED from "
+                  "no clause about trailing slashes since fix 8e9dafb (the writer strips all of them: goextract reads which strings.Trim* function the source uses, the regression replay a// is written F:a both times); 'the written lines fit the scanner' is DERIVED from "
                   "conditions on the fields and the token limits read from the source (index and installed db), so the round-trip theorems exist with hypotheses on fields only; "
                   "the fuel of the validator's reachability test is enough for every truly reachable entry; the readers' switch tables (case letters, assigned fields, line guards) "
                   "are pinned to the source and letters outside them are ignored, repeated fields overwrite (except an un-prefixed C:), passwd/group lines with a wrong number of "
@@ -42,6 +42,6 @@ class P(vlib.Prop):
     watch = ("pkg/apk/apk/apkindex.go", "pkg/apk/apk/installed.go", "pkg/apk/apk/package.go", "pkg/apk/apk/common.go", "pkg/passwd/passwd.go", "pkg/passwd/group.go")
     modelled_not_verified = ("ParsePackageIndex / ParseInstalled / parseInstalledPerms / sortTarHeaders / sanitizeArchivePath (filepath.Rel test) / UserEntry.Parse / GroupEntry.Parse "
                              "control flow and path/filepath's Clean, Dir, Base, Join, Rel are modelled by hand (Model/Formats.v); template rows, fmt formats, separators, default modes, "
-                             "mode mask, scanner limits, whether Scanner.Err is looked at, and the readers' case letters / assigned fields / line guards are regenerated from the source")
+                             "mode mask, the function that trims a directory name's trailing slashes, scanner limits, whether Scanner.Err is looked at, and the readers' case letters / assigned fields / line guards are regenerated from the source")
 
 PROP = P()
